@@ -39,8 +39,12 @@ func main() {
 	mapOrder := flag.Int("maporder", 0, "map iteration schedule (0 insertion, 1 reversed, 2 rotated)")
 	params := flag.String("params", "", "k=v,k=v harness parameters (verifParam)")
 	replay := flag.String("replay", "", "JSON file with input values: run concretely")
+	real := flag.String("real", "", "comma separated real directories readable through the virtual file system")
+	argv := flag.String("args", "", "os.Args of the target (space separated)")
+	batch := flag.String("batch", "", "JSON file: list of {Entry,Args,Params,Real}; concrete runs in parallel")
+	keepOut := flag.Bool("keep-output", false, "store stdout/stderr of sampled paths")
 	flag.Parse()
-	if *entry == "" {
+	if *entry == "" && *batch == "" {
 		fmt.Fprintln(os.Stderr, "missing -entry")
 		os.Exit(2)
 	}
@@ -58,6 +62,35 @@ func main() {
 			}
 			return nil
 		})
+	}
+	type batchItem struct {
+		Id     string
+		Entry  string
+		Args   []string
+		Params map[string]string
+		Real   []string
+		Cwd    string
+	}
+	var items []batchItem
+	if *batch != "" {
+		data, err := os.ReadFile(*batch)
+		if err != nil {
+			fmt.Fprintln(os.Stderr, err)
+			os.Exit(3)
+		}
+		if err := json.Unmarshal(data, &items); err != nil {
+			fmt.Fprintln(os.Stderr, err)
+			os.Exit(3)
+		}
+		seen := map[string]bool{}
+		var l []string
+		for _, it := range items {
+			if !seen[it.Entry] {
+				seen[it.Entry] = true
+				l = append(l, it.Entry)
+			}
+		}
+		*entry = strings.Join(l, ",")
 	}
 	entries := strings.Split(*entry, ",")
 	pkgSet := map[string]bool{}
@@ -99,6 +132,47 @@ func main() {
 		Workers: *workers, MaxPaths: *maxPaths, MaxSteps: *maxSteps, SolverTimeout: *timeout,
 		SolverCmd: strings.Fields(*solver), Samples: *samples, Verbose: *verbose,
 		StopOnFirst: *stopFirst, MapOrder: *mapOrder, Params: map[string]string{},
+	}
+	opt.KeepOutput = *keepOut
+	if *real != "" {
+		opt.RealRoots = strings.Split(*real, ",")
+	}
+	if *argv != "" {
+		opt.Args = strings.Fields(*argv)
+	}
+	if *batch != "" {
+		type itemResult struct {
+			Id     string
+			Result *interp.Result
+		}
+		results := make([]itemResult, len(items))
+		sem := make(chan int, *workers)
+		done := make(chan int)
+		for i := range items {
+			go func(i int) {
+				sem <- 1
+				it := items[i]
+				o := opt
+				o.Workers = 1
+				o.Samples = 1
+				o.KeepOutput = true
+				o.Args = it.Args
+				o.Params = it.Params
+				o.RealRoots = it.Real
+				results[i] = itemResult{Id: it.Id, Result: interp.Explore(p, it.Entry, o)}
+				<-sem
+				done <- 1
+			}(i)
+		}
+		for range items {
+			<-done
+		}
+		data, _ := json.MarshalIndent(results, "", " ")
+		if *out != "" {
+			os.WriteFile(*out, data, 0644)
+		}
+		fmt.Printf("gosx batch: %d items, load=%.1fs wall=%.1fs\n", len(items), tLoad.Seconds(), time.Since(t0).Seconds())
+		return
 	}
 	if *params != "" {
 		for _, kv := range strings.Split(*params, ",") {
